@@ -91,7 +91,7 @@ def parse_impl(text, d, i, eol="\n"):
     with open(p, "w", encoding="utf-8", newline="") as fh:
         fh.write(text.replace("\n", eol))
     try:
-        r = PumlParser().parse(p)
+        r = rules.cpu_limited(lambda: PumlParser().parse(p), 10)
         return ("OK", sorted(r.all_modules), sorted((a, b) for a, bs in r.dependencies.items() for b in bs))
     except AssertionError as e:
         return ("FAIL", str(e))
